@@ -137,10 +137,20 @@ pub fn run_lines(sh: &mut shell::Shell,
 }
 
 fn expand_args(line: &str, args: &[String]) -> String {
-    let linfo = parsers::parser_line::parse_line(line);
-    let mut tokens = linfo.tokens;
-    expand_args_in_tokens(&mut tokens, args);
-    parsers::parser_line::tokens_to_line(&tokens)
+    // the line may be a list (`a; b && c`): the tokenizer knows nothing about
+    // list operators, so every command of the list is handled on its own
+    let mut parts: Vec<String> = Vec::new();
+    for part in parsers::parser_line::line_to_cmds(line) {
+        if part == ";" || part == "&&" || part == "||" {
+            parts.push(part);
+            continue;
+        }
+        let linfo = parsers::parser_line::parse_line(&part);
+        let mut tokens = linfo.tokens;
+        expand_args_in_tokens(&mut tokens, args);
+        parts.push(parsers::parser_line::tokens_to_line(&tokens));
+    }
+    parts.join(" ")
 }
 
 fn expand_line_to_toknes(line: &str,
